@@ -14,7 +14,7 @@ from sa.ctx import Ctx, short, stmt_key, ENGINE_MODULES
 from sa.cfg import NORMAL, describe_path
 from sa.report import Report
 from sa.effects import Effects
-from sa.util import cfg_root, node_has_call, node_stores_attr, has_fact
+from sa.util import cfg_root, node_has_call, node_stores_attr, has_fact, fact_in
 from sa import pat
 
 
@@ -100,7 +100,8 @@ class C04:
         hr = ctx.prog.func("SyncManager.handle_rename")
         sync, changed, synced = hr.params()[1:4]
         calls = [c for c in self.eff.provider_mutations(hr) if c.func.attr == "rename"]
-        ok = bool(calls) and all(pat.match("self.providers[%s].rename(%s[%s].oid, translated_path)" % (synced, sync, synced), c) is not None for c in calls)
+        tp = hr.params()[4] if len(hr.params()) > 4 else "translated_path"
+        ok = bool(calls) and all(pat.match("self.providers[%s].rename(%s[%s].oid, %s)" % (synced, sync, synced, tp), c) is not None for c in calls)
         rep.check("C04.R5", "handle_rename|by-id", hr, ok, "rename(sync[synced].oid, translated_path)", "the peer is not renamed by its stored id to the translated path")
         res = {n.targets[0].id for n in ctx.own_nodes(hr) if isinstance(n, ast.Assign) and any(n.value is c for c in calls) and isinstance(n.targets[0], ast.Name)}
         ups = [c for c in ctx.calls(hr, "update_entry")]
@@ -119,18 +120,28 @@ class C04:
         look = [n for n in g.nodes if node_has_call(n, "self.state.lookup_creation($$$)") or node_has_call(n, "self.state.lookup_deletion($$$)")]
         pth = g.reach([g.entry.id], lambda n: n in look, avoid=lambda n: n in gate)
         rep.check("C04.R6", "fold|gate", f, bool(gate) and bool(look) and pth is None, "folding only under oid_is_path", "delete+create folding is attempted for id-style providers too")
-        mt = [n for n in g.nodes if n.kind == "test" and pat.match("match", n.ast) is not None]
-        if not mt:
-            raise AnalysisError("check_rename_is_delete_create: `if match:` not found")
+        mname = None
+        for n_ in ctx.own_nodes(f):
+            if isinstance(n_, ast.Assign) and isinstance(n_.targets[0], ast.Name) and isinstance(n_.value, ast.Call) and \
+                    (pat.match("self.state.lookup_creation($$$)", n_.value) is not None or pat.match("self.state.lookup_deletion($$$)", n_.value) is not None):
+                mname = n_.targets[0].id
+        dname = cname = None
+        for n_ in ctx.own_nodes(f):
+            if isinstance(n_, ast.Assign) and isinstance(n_.targets[0], ast.Tuple) and len(n_.targets[0].elts) == 2 and isinstance(n_.value, ast.IfExp) \
+                    and all(isinstance(e, ast.Name) for e in n_.targets[0].elts):
+                dname, cname = n_.targets[0].elts[0].id, n_.targets[0].elts[1].id
+        mt = [n for n in g.nodes if n.kind == "test" and mname is not None and pat.match(mname, n.ast) is not None]
+        if not mt or dname is None:
+            raise AnalysisError("check_rename_is_delete_create: `if <match>:` / `delete, create = ...` not found")
         starts = [b for (b, l) in g.succ[mt[0].id] if l == "T"]
         ends = [n for n in g.nodes if n.kind == "stmt" and isinstance(n.ast, ast.Return) and any(x is n.ast for x in ast.walk(mt[0].ast) ) is False]
-        arm_rets = [n for n in g.nodes if n.kind == "stmt" and isinstance(n.ast, ast.Return) and ("match", True) in ctx.facts(f).facts(n)]
-        for what, patt in (("exists", "delete[%s].exists = create[%s].exists" % (changed, changed)), ("path", "delete[%s].path = create[%s].path" % (changed, changed)),
-                           ("oid", "delete[%s].oid = create[%s].oid" % (changed, changed))):
+        arm_rets = [n for n in g.nodes if n.kind == "stmt" and isinstance(n.ast, ast.Return) and fact_in(ctx.facts(f).facts(n), mname, True)]
+        for what, patt in (("exists", "%s[%s].exists = %s[%s].exists" % (dname, changed, cname, changed)), ("path", "%s[%s].path = %s[%s].path" % (dname, changed, cname, changed)),
+                           ("oid", "%s[%s].oid = %s[%s].oid" % (dname, changed, cname, changed))):
             pth = g.reach(starts, lambda n: n in arm_rets, avoid=lambda n, patt=patt: _assign(n, patt), follow=NORMAL, include_src=True)
             rep.check("C04.R6", "fold|%s" % what, f, bool(arm_rets) and pth is None, patt, "the folded rename does not take over the create's %s on every path: the object ends at two paths / keeps the old id" % what,
                       witness=describe_path(pth) if pth else None)
-        disc = lambda n: node_has_call(n, "create.ignore(IgnoreReason.DISCARDED)")   # noqa: E731
+        disc = lambda n: node_has_call(n, "%s.ignore(IgnoreReason.DISCARDED)" % cname)   # noqa: E731
         pth = g.reach(starts, lambda n: n in arm_rets, avoid=disc, follow=NORMAL, include_src=True)
         rep.check("C04.R6", "fold|discard-create", f, pth is None, "the create entry is discarded", "the create entry survives the fold: the object is duplicated", witness=describe_path(pth) if pth else None)
 
